@@ -58,6 +58,15 @@ structure St where
   fixF8 : Bool := true
   fixF1 : Bool := true
   fixF9 : Bool := true
+  fixF4 : Bool := true
+  fixF5 : Bool := true
+  libBounds : List (Nat × Nat × Nat) := []                       -- (algorithm, n, value) of the library's bound functions
+  libDBounds : List (Int × Nat × Nat) := []                      -- deflateBound (level, n, value)
+  libComps : List (Nat × Int × Nat × Bytes × Option Bytes) := []  -- one-shot compressions observed: algo, level, capacity, input, result
+  libDecomps : List (Nat × Nat × Bytes × Cz.DRes) := []          -- raw decompressions observed: algo, room, input, result
+  libZcs : List (Bytes × Option Nat) := []
+  libSnlen : List (Bytes × Option Nat) := []
+  libZrange : Int × Int := (-131072, 22)
   dead : Bool := false                              -- the modelled process has aborted
 
 def compOf (ctab : List (Nat × Bytes × Bytes)) (algo : Nat) (raw : Bytes) : Option Bytes :=
@@ -548,7 +557,8 @@ def stepMore (s : St) (line : String) : St × String :=
     match iid.toNat? with
     | some i => ({ s with riters := s.riters.erase i }, "ok")
     | none => (s, "bad-op")
-  | ["reset"] => ({ fixF1 := s.fixF1, fixF9 := s.fixF9, fixF2 := s.fixF2, fixF8 := s.fixF8, fixF3 := s.fixF3 }, "ok")
+  | ["reset"] => ({ fixF1 := s.fixF1, fixF9 := s.fixF9, fixF2 := s.fixF2, fixF8 := s.fixF8, fixF3 := s.fixF3,
+                    fixF4 := s.fixF4, fixF5 := s.fixF5 }, "ok")
   | _ => match stepCodec line with
     | some r => (s, r)
     | none => match stepMerger s line with
@@ -565,13 +575,95 @@ def stepMore (s : St) (line : String) : St × String :=
                 | some r => r
                 | none => (s, "bad-op")
 
-def step (s : St) (line : String) : St × String :=
+
+/-! ### C15: the wrapper model run over the library behaviour the real wrappers observed ("#lib" facts).
+    A query the real code never made is a MISS and yields a sentinel, which surfaces in the reply. -/
+def missBytes : Bytes := [0x4d, 0x49, 0x53, 0x53]          -- "MISS"
+def algoDec (a : Cz.Algo) : Nat := (Cz.decoder a).toNat
+def tableLib (s : St) : Cz.Lib where
+  zstdMin := s.libZrange.1
+  zstdMax := s.libZrange.2
+  bound a n := ((s.libBounds.find? fun (a', n', _) => a' == (if a == .lz4hc then 3 else a.toNat) && n' == n).map (·.2.2)).getD 57005
+  deflateBound lvl n := ((s.libDBounds.find? fun (l', n', _) => l' == lvl && n' == n).map (·.2.2)).getD 57005
+  comp a lvl cap inp :=
+    match s.libComps.find? fun (a', l', c', i', _) => a' == a.toNat && l' == lvl && c' == cap && i' == inp with
+    | some (_, _, _, _, r) => r
+    | none => some missBytes
+  decomp a room src :=
+    match s.libDecomps.find? fun (a', r', i', _) => a' == algoDec a && r' == room && i' == src with
+    | some (_, _, _, r) => r
+    | none => .ok missBytes
+  zstdContentSize src := ((s.libZcs.find? fun (i', _) => i' == src).map (·.2)).getD (some 57005)
+  snappyLen src := ((s.libSnlen.find? fun (i', _) => i' == src).map (·.2)).getD (some 57005)
+
+def cresStr : Cz.CRes → String
+  | .ok o => "ok " ++ hex o
+  | .fail => "fail"
+  | .abort => "abort"
+  | .wrap => "wrap"
+
+def optNat : List String → Option (Option Nat)
+  | ["none"] => some none
+  | ["some", n] => n.toNat?.map some
+  | _ => none
+
+def stepCz (s : St) (line : String) : Option (St × String) :=
+  match line.trimAscii.toString.splitOn " " with
+  | ["lib", "zrange", a, b] => match a.toInt?, b.toInt? with
+    | some a, some b => some ({ s with libZrange := (a, b) }, "ok")
+    | _, _ => none
+  | ["lib", "bound", a, n, v] => match a.toNat?, n.toNat?, v.toNat? with
+    | some a, some n, some v => some ({ s with libBounds := (a, n, v) :: s.libBounds }, "ok")
+    | _, _, _ => none
+  | ["lib", "dbound", l, n, v] => match l.toInt?, n.toNat?, v.toNat? with
+    | some l, some n, some v => some ({ s with libDBounds := (l, n, v) :: s.libDBounds }, "ok")
+    | _, _, _ => none
+  | "lib" :: "comp" :: a :: l :: c :: i :: rest =>
+    match a.toNat?, l.toInt?, c.toNat?, unhex i with
+    | some a, some l, some c, some i =>
+      match rest with
+      | ["none"] => some ({ s with libComps := (a, l, c, i, none) :: s.libComps }, "ok")
+      | ["some", o] => (unhex o).map fun o => ({ s with libComps := (a, l, c, i, some o) :: s.libComps }, "ok")
+      | _ => none
+    | _, _, _, _ => none
+  | "lib" :: "decomp" :: a :: r :: i :: rest =>
+    match a.toNat?, r.toNat?, unhex i with
+    | some a, some r, some i =>
+      match rest with
+      | ["small"] => some ({ s with libDecomps := (a, r, i, .tooSmall) :: s.libDecomps }, "ok")
+      | ["error"] => some ({ s with libDecomps := (a, r, i, .error) :: s.libDecomps }, "ok")
+      | ["ok", o] => (unhex o).map fun o => ({ s with libDecomps := (a, r, i, .ok o) :: s.libDecomps }, "ok")
+      | _ => none
+    | _, _, _ => none
+  | "lib" :: "zcs" :: i :: rest => match unhex i, optNat rest with
+    | some i, some v => some ({ s with libZcs := (i, v) :: s.libZcs }, "ok")
+    | _, _ => none
+  | "lib" :: "snlen" :: i :: rest => match unhex i, optNat rest with
+    | some i, some v => some ({ s with libSnlen := (i, v) :: s.libSnlen }, "ok")
+    | _, _ => none
+  | ["cz.c", a, lvl, i] =>
+    match a.toNat?, unhex i with
+    | some a, some i =>
+      let level : Option (Option Int) := if lvl == "d" then some none else lvl.toInt?.map some
+      level.map fun level => (s, cresStr (Cz.compressT s.fixF4 (tableLib s) a level i))
+    | _, _ => none
+  | ["cz.d", a, i] =>
+    match a.toNat?, unhex i with
+    | some a, some i => some (s, cresStr (Cz.decompressT s.fixF5 (tableLib s) a i))
+    | _, _ => none
+  | ["cz.name", n] => some (s, match Cz.typeFromStr n with | some t => "type " ++ toString t | none => "fail")
+  | ["cz.tostr", t] => t.toNat?.map fun t => (s, match Cz.typeToStr t with | some n => "name " ++ n | none => "null")
+  | _ => none
+
+def stepMain (s : St) (line : String) : St × String :=
   match line.trimAscii.toString.splitOn " " with
   | ["cfg", "fixF1", v] => ({ s with fixF1 := v == "1" }, "ok")
   | ["cfg", "fixF9", v] => ({ s with fixF9 := v == "1" }, "ok")
   | ["cfg", "fixF2", v] => ({ s with fixF2 := v == "1" }, "ok")
   | ["cfg", "fixF8", v] => ({ s with fixF8 := v == "1" }, "ok")
   | ["cfg", "fixF3", v] => ({ s with fixF3 := v == "1" }, "ok")
+  | ["cfg", "fixF4", v] => ({ s with fixF4 := v == "1" }, "ok")
+  | ["cfg", "fixF5", v] => ({ s with fixF5 := v == "1" }, "ok")
   | ["blob", id, h] =>
     match id.toNat?, unhex h with
     | some i, some b => ({ s with blobs := s.blobs.insert i b }, "ok")
@@ -636,6 +728,11 @@ def step (s : St) (line : String) : St × String :=
       | none => (s, "bad-op")
     | _, _ => (s, "bad-op")
   | _ => stepMore s line
+
+def step (s : St) (line : String) : St × String :=
+  match stepCz s line with
+  | some r => r
+  | none => stepMain s line
 
 partial def loop (h : IO.FS.Stream) (out : IO.FS.Stream) (s : St) : IO Unit := do
   let line ← h.getLine
